@@ -558,9 +558,21 @@ func (e *Engine) witnessFunction(ws WitnessSpec, ss []witnessSample, rep *Witnes
 			rep.Clauses[label] = len(accepted)
 			continue
 		}
+		// one execution at a time: proved, refuted (the negation follows, or the solver has a model), or
+		// neither. Only a refutation is a violation: "not proved" under load or a solver limit is inconclusive.
 		proved := 0
 		var firstBad *acc
 		badStatus := ""
+		inconclusive := 0
+		neg := func(a acc, tag string, t int) string {
+			sc := func() string {
+				witnessMu.Lock()
+				defer witnessMu.Unlock()
+				env, st, _ := e.witnessEnv(fn, con, a.s, true)
+				return script(st, not(e.cevalBool(cl.E, env)))
+			}()
+			return solve(tag, sc, t)
+		}
 		var wg2 sync.WaitGroup
 		for i := range accepted {
 			i := i
@@ -570,44 +582,35 @@ func (e *Engine) witnessFunction(ws WitnessSpec, ss []witnessSample, rep *Witnes
 				defer wg2.Done()
 				defer func() { <-sem }()
 				stt := one(accepted[i], fmt.Sprintf("%s_witness_%s_%d", ws.Func, label, i), secs)
+				refuted := stt == "sat"
+				if stt != "unsat" && !refuted {
+					if neg(accepted[i], fmt.Sprintf("%s_witness_%s_%d_neg", ws.Func, label, i), secs) == "unsat" {
+						refuted = true
+						stt = "the negation of the clause follows"
+					}
+				}
 				mu.Lock()
-				if stt == "unsat" {
+				switch {
+				case stt == "unsat":
 					proved++
-				} else if firstBad == nil || accepted[i].desc < firstBad.desc {
-					firstBad = &accepted[i]
-					badStatus = stt
+				case refuted:
+					if firstBad == nil || accepted[i].desc < firstBad.desc {
+						firstBad = &accepted[i]
+						badStatus = stt
+					}
+				default:
+					inconclusive++
 				}
 				mu.Unlock()
 			}()
 		}
 		wg2.Wait()
-		if firstBad != nil && badStatus != "sat" {
-			// not proved is not refuted: what failed under the parallel run is tried again, one at a
-			// time and with twice the time, before it counts
-			var still *acc
-			stillStatus := ""
-			for i := range accepted {
-				a := &accepted[i]
-				if stt := one(*a, fmt.Sprintf("%s_witness_%s_%d_again", ws.Func, label, i), 4); stt == "unsat" {
-					continue // cheap pre-filter: most executions are proved at once
-				}
-				stt := one(*a, fmt.Sprintf("%s_witness_%s_%d_long", ws.Func, label, i), 2*secs)
-				if stt != "unsat" {
-					still, stillStatus = a, stt
-					break // one execution that stays unproved is enough to report
-				}
-			}
-			if still == nil {
-				proved = len(accepted)
-			}
-			firstBad, badStatus = still, stillStatus
+		if inconclusive > 0 {
+			rep.Skipped = append(rep.Skipped, fmt.Sprintf("%s: %d of %d executions neither proved nor refuted in this run", label, inconclusive, len(accepted)))
 		}
 		rep.Clauses[label] = proved
 		if firstBad != nil {
-			what := "the clause instantiated with this execution of the real function does not follow from the contract's spec functions (" + badStatus + ")"
-			if badStatus == "sat" {
-				what = "the clause is false for this execution of the real function"
-			}
+			what := "the clause is false for this execution of the real function (" + badStatus + ")"
 			failures = append(failures, Failure{Obligation: ws.Func + "/witness/" + label, Class: "execution-contradicts-clause", Input: firstBad.desc, Detail: "on " + firstBad.desc + ": " + cl.Src + " — " + what, Backend: "witness", Replay: cmdline})
 		}
 	}
